@@ -71,7 +71,7 @@ func c15SmallConfigs() []cfg.Config {
 		Meta: cfg.Meta{Pkg: sp("app"), Functions: []cfg.KV{{K: "cnt", V: "fx/lib.Count"}}},
 		Params: []cfg.Param{
 			{Name: "p0", Val: cfg.Str(`%todo()%`)},
-			{Name: "p1", Val: cfg.Str(`%p0%-x`)},
+			{Name: "p1", Val: cfg.Str(`say "%p0%"-x`)}, // quotation marks in plain text mean nothing to the pattern syntax
 			{Name: "p2", Val: cfg.Str(`%cnt("k2", 5)%`)},
 			{Name: "p3", Val: cfg.Str(`%p0%`)}, // a pure alias of the todo parameter
 		},
